@@ -278,15 +278,19 @@ theorem ioInterpret_safe (cfg : IoCfg) (cp : Option Nat) (tol : Bool) (d : Bytes
 
 theorem ioClient_safe (cfg : IoCfg) (did : Nat) (cp : Option Nat) (tol : Bool) (d : Bytes) (hv : ioCfgValid cfg) : Safe (ioClient cfg did cp tol d) := by
   unfold ioClient
-  refine Safe.bind (ioInterpret_safe cfg cp tol d hv) fun r _ => ?_
-  cases r <;> first
-    | exact Safe.pure _
-    | (simp only
-       split
-       · exact Safe.throw _ rfl
-       · split
-         · exact Safe.throw _ rfl
-         · exact Safe.pure _)
+  have hs := ioInterpret_safe cfg cp tol d hv
+  split
+  · split
+    · exact Safe.throw _ rfl
+    · exact Safe.throw _ rfl
+  · rename_i e _ he
+    exact Safe.throw _ (hs e he)
+  · split
+    · exact Safe.throw _ rfl
+    · split
+      · exact Safe.throw _ rfl
+      · exact Safe.pure _
+  · exact Safe.pure _
 
 /-! ### Authentication -/
 
@@ -400,7 +404,12 @@ theorem rftClient_safe (moop : Nat) (dfiSent : Option Nat) (tol : Bool) (d : Byt
       · exact Safe.throw _ rfl
       · exact Safe.throw _ rfl
     · exact Safe.throw _ rfl
-  · rename_i e _ he
+  · split
+    · split
+      · exact Safe.throw _ rfl
+      · exact Safe.throw _ rfl
+    · exact Safe.throw _ rfl
+  · rename_i e _ _ he
     exact Safe.throw _ (hs e he)
   · split
     · exact Safe.throw _ rfl
@@ -700,8 +709,13 @@ def ctxOk (q : DtcReqCtx) : Prop :=
   ((sf = 0x06 ∨ sf = 0x10 ∨ sf = 0x19) → q.extRec.isSome = true) ∧
   ((sf = 0x42 ∨ sf = 0x55) → q.fgid.isSome = true)
 
-theorem dtcPost_safe (q : DtcReqCtx) (r : DtcData) (hq : ctxOk q) (hfg : (q.sf.toNat = 0x42 ∨ q.sf.toNat = 0x55) → r.fgid.isSome = true) :
-    Safe (dtcPost q r) := by
+theorem recEcho_safe (d : Bytes) (w : Nat) (h : 2 ≤ d.length) : Safe (recEcho d w) := by
+  unfold recEcho
+  exact Safe.bind (Safe.idx (by omega)) fun _ _ => Safe.guard _ _ rfl
+
+theorem dtcPost_safe (q : DtcReqCtx) (r : DtcData) (d : Bytes) (hq : ctxOk q) (hfg : (q.sf.toNat = 0x42 ∨ q.sf.toNat = 0x55) → r.fgid.isSome = true)
+    (hlen : (q.sf.toNat = 0x05 ∨ q.sf.toNat = 0x16) → 2 ≤ d.length) :
+    Safe (dtcPost q r d) := by
   obtain ⟨h1, h2, h3, h4⟩ := hq
   unfold dtcPost
   refine Safe.bind ?_ fun _ _ => Safe.bind ?_ fun _ _ => Safe.bind ?_ fun _ _ => Safe.bind ?_ fun _ _ => Safe.bind ?_ fun _ _ => ?_
@@ -726,10 +740,9 @@ theorem dtcPost_safe (q : DtcReqCtx) (r : DtcData) (hq : ctxOk q) (hfg : (q.sf.t
     cases hs : q.snapRec with
     | none => simp [hs] at this
     | some w =>
-      simp only
-      split
-      · exact Safe.guard _ _ rfl
-      · exact Safe.pure _
+      refine Safe.ite (fun _ => ?_) fun _ => Safe.pure _
+      refine Safe.bind (Safe.ite (fun h5 => recEcho_safe _ _ (hlen (Or.inl (by simpa using h5)))) fun _ => Safe.pure _) fun _ _ => ?_
+      exact Safe.guard _ _ rfl
   · unfold postExtRec
     refine Safe.ite (fun hc => ?_) fun _ => Safe.pure _
     have : q.extRec.isSome = true := h3 (by simp only [Bool.or_eq_true, beq_iff_eq] at hc; omega)
@@ -746,9 +759,9 @@ theorem dtcPost_safe (q : DtcReqCtx) (r : DtcData) (hq : ctxOk q) (hfg : (q.sf.t
     · exact Safe.guard _ _ rfl
     · exact Safe.pure _
   · unfold postExtByRecord
-    refine Safe.ite (fun _ => ?_) fun _ => Safe.pure _
+    refine Safe.ite (fun h16 => ?_) fun _ => Safe.pure _
     split
-    · exact Safe.guard _ _ rfl
+    · exact Safe.bind (recEcho_safe _ _ (hlen (Or.inr (by simpa using h16)))) fun _ _ => Safe.guard _ _ rfl
     · exact Safe.pure _
   · unfold postFgid
     refine Safe.ite (fun hc => ?_) fun _ => Safe.pure _
@@ -780,6 +793,23 @@ theorem dtcInterpret_fgid (c : DtcCfg) (sf : Int) (d : Bytes) (r : DtcData) (h :
   · have : dtcRespGroup 0x55 = .wwhPerm := by decide
     rw [this] at h; exact wwhInterpret_fgid _ _ _ _ h
 
+theorem dtcInterpret_len2 (c : DtcCfg) (sf : Int) (d : Bytes) (r : DtcData) (h : dtcInterpret c sf d = .ok r)
+    (hsf : sf.toNat = 0x05 ∨ sf.toNat = 0x16) : 2 ≤ d.length := by
+  unfold dtcInterpret at h
+  simp only [bind_ok] at h
+  obtain ⟨_, _, _, _, h⟩ := h
+  rcases hsf with hsf | hsf <;> rw [hsf] at h
+  · have : dtcRespGroup 0x05 = .snapByRecord := by decide
+    rw [this] at h
+    simp only [snapByRecordInterpret, bind_ok, guardPy_ok] at h
+    obtain ⟨_, _, _, _, _, hl, _⟩ := h
+    simpa using hl
+  · have : dtcRespGroup 0x16 = .extByRecord := by decide
+    rw [this] at h
+    simp only [extByRecordInterpret, bind_ok, guardPy_ok] at h
+    obtain ⟨_, _, _, _, _, hl, _⟩ := h
+    simpa using hl
+
 /-- **read_dtc_information** (and the 26 getters built on it): every reply ends in a result or a documented exception -/
 theorem dtcClient_safe (c : DtcCfg) (q : DtcReqCtx) (d : Bytes) (hv : DtcCfgValid c) (hsf : checkSubfunctionValid q.sf c.std = .ok ())
     (hq : ctxOk q) : Safe (dtcClient c q d) := by
@@ -788,7 +818,7 @@ theorem dtcClient_safe (c : DtcCfg) (q : DtcReqCtx) (d : Bytes) (hv : DtcCfgVali
   split
   · rename_i r hr
     refine Safe.ite (fun _ => Safe.throw _ rfl) fun _ => ?_
-    exact Safe.bind (dtcPost_safe q r hq (dtcInterpret_fgid c q.sf d r hr)) fun _ _ => Safe.pure _
+    exact Safe.bind (dtcPost_safe q r d hq (dtcInterpret_fgid c q.sf d r hr) (dtcInterpret_len2 c q.sf d r hr)) fun _ _ => Safe.pure _
   · rename_i e he
     split
     · exact Safe.ite (fun _ => Safe.throw _ rfl) fun _ => Safe.throw _ (hs e he)
